@@ -3,9 +3,17 @@ package main
 // Checks implemented in their own packages.
 
 import (
+	"github.com/go-task/task/v3/verifh/p08"
+	"github.com/go-task/task/v3/verifh/p09"
+	"github.com/go-task/task/v3/verifh/p10"
+	"github.com/go-task/task/v3/verifh/p19"
 	"github.com/go-task/task/v3/verifh/p20"
 )
 
 func init() {
+	checks["C08"] = p08.Run
+	checks["C09"] = p09.Run
+	checks["C10"] = p10.Run
+	checks["C19"] = p19.Run
 	checks["C20"] = p20.Run
 }
